@@ -183,6 +183,17 @@ def run_ties(ctx, tie_rel, gen_files=("Fun.v",), timeout=900):
     return compile_and_record(ctx, os.path.join(COQ, tie_rel), tie_rel, extra_q=q, subdir="Tie", timeout=timeout)
 
 
+def _big_stack():
+    """run a child with the largest stack the system allows: the extracted model recurses over lists structurally
+    (non-tail calls), so long inputs need more than the default 8 MB"""
+    import resource
+    try:
+        soft, hard = resource.getrlimit(resource.RLIMIT_STACK)
+        resource.setrlimit(resource.RLIMIT_STACK, (hard, hard))
+    except (ValueError, OSError):
+        pass
+
+
 class Model:
     """Batch interface to the extracted model (ocaml/driver)."""
 
@@ -199,7 +210,8 @@ class Model:
         chunks = [lines[i::shards] for i in range(shards)]
         procs = []
         for ch in chunks:
-            p = subprocess.Popen([DRIVER], stdin=subprocess.PIPE, stdout=subprocess.PIPE, text=True)
+            p = subprocess.Popen([DRIVER], stdin=subprocess.PIPE, stdout=subprocess.PIPE, stderr=subprocess.DEVNULL, text=True,
+                                 preexec_fn=_big_stack)
             procs.append(p)
         outs = []
         import threading
@@ -228,7 +240,7 @@ class Model:
         # re-run those requests one by one in fresh processes before reporting a driver error
         for idx, a in enumerate(answers):
             if isinstance(a, dict) and "driver_error" in a:
-                p = subprocess.run([DRIVER], input=lines[idx] + "\n", capture_output=True, text=True)
+                p = subprocess.run([DRIVER], input=lines[idx] + "\n", capture_output=True, text=True, preexec_fn=_big_stack)
                 out = p.stdout.split("\n")[0]
                 try:
                     answers[idx] = json.loads(out)
